@@ -37,7 +37,7 @@ func init() {
 			"S2 (real evaluations, deviation bound 1, thorough 2): 2-3 Evals in separate scopes of one interpreter that intern the same new identifiers, call evalEnv, decode JSON and compare/hash/print the strings the symbol table hands out; " +
 			"S3 (start-up loaders, bound 1, thorough 2): pairs of the real readNativeCode bodies from the table state that exists when the start-up goroutines are spawned; " +
 			"S4 (main script and handlers, bound 1, thorough 2): one evaluation assigning variables in a shared scope while 1-2 others call a handler function defined in that scope from enclosed scopes (what the HTTP module does after serve(background: true)); " +
-			"S5 (the real request handlers of the http module, bound 1, thorough 2): handler objects are built by the module's own S.get/S.post in a script scope and their Go handler functions are called directly (echo context over an in-memory recorder, no server, no network) by 2 threads x 1-2 requests out of 9, all pairs, plus every single-thread history of 2 requests; every response (status, content type, header, body) must equal the response the same request gets alone from freshly built handlers; local variables that a Go closure assigns although they are declared outside it are recorded like fields (state kept by a closure that several requests call); " +
+			"S5 (the real request handlers of the http module, bound 1, thorough 2): handler objects are built by the module's own S.get/S.post in a script scope and their Go handler functions are called directly (echo context over an in-memory recorder, no server, no network) by 2 threads x 1-2 requests out of 11 (two of them carrying header and query names the interpreter has not seen, which the handler sends back), all pairs, plus every single-thread history of 2 requests; every response (status, content type, header, body) must equal the response the same request gets alone from freshly built handlers; local variables that a Go closure assigns although they are declared outside it are recorded like fields (state kept by a closure that several requests call); " +
 			"the tables are restored to a snapshot before every execution; oracle: no happens-before-unordered conflicting accesses on symHashTable/strTable nor on any package-level variable that a function other than init assigns, nor on any field of an object-package struct that some statement assigns after construction (every read/write of such a field is recorded per object; at present Env.Store, PanErr.StackTrace, PanFunc.Env, PanObj.Keys/Pairs/PrivateKeys/zero; a new lazily written field is picked up automatically), SymHash2Str returns what the thread interned, Items() never panics, no deadlock, same final tables and results in every schedule; " +
 			"states = schedules executed, transitions = scheduling steps; non-trivial = schedule containing a cross-thread conflicting access pair; distinct = distinct (scenario, choice vector); round 7: S2 also has two programs that catch errors raised by built-in code (exhausted built-in iterators asked again, failing built-ins, `_`).; round 8: The sync shim reports a lock value copied after its first use; S4 also runs pairs of handlers that only read shared values while expanding them into calls and literals or instantiating a shared iterator literal.",
 		Assumptions: []string{
@@ -263,23 +263,27 @@ const s5Setup = "invite!(\"http\")\nzz_users := [{id: \"1\", name: \"Taro\"}, {i
 	"zz_h2 := S.post(\"/echo\") {|req| req.body + \"!\"}\n" +
 	"zz_h3 := S.put(\"/made/:k\") {|req| Response.new(status: 200 + req.params.k.I, body: \"made\", headers: {\"X-A\": req.params.k})}\n" +
 	"zz_h4 := S.get(\"/json\") {|req| {n: req.queries.n, h: req.headers['Accept]}}\n" +
-	"zz_h5 := S.delete(\"/gone\") {|req| Response.new(status: 204)}\nzz_h1"
+	"zz_h5 := S.delete(\"/gone\") {|req| Response.new(status: 204)}\n" +
+	"zz_h6 := S.get(\"/corr\") {|req| Response.new(body: req.headers.keys.S + req.queries.keys.S, headers: {**req.headers@({}){|k, v| [k, v[0]]}})}\nzz_h1"
 
-type s5req struct{ handler, method, url, params, body string }
+type s5req struct{ handler, method, url, params, body, hdr string }
 
 var s5reqs = map[string]s5req{
-	"u1":    {"zz_h1", "GET", "/users/1", "id=1", ""},
-	"u2":    {"zz_h1", "GET", "/users/2", "id=2", ""},
-	"u9":    {"zz_h1", "GET", "/users/9", "id=9", ""},
-	"echoA": {"zz_h2", "POST", "/echo", "", "aaa"},
-	"echoB": {"zz_h2", "POST", "/echo", "", "b"},
-	"made1": {"zz_h3", "PUT", "/made/1", "k=1", ""},
-	"made0": {"zz_h3", "PUT", "/made/0", "k=0", ""},
-	"json":  {"zz_h4", "GET", "/json?n=5", "", ""},
-	"gone":  {"zz_h5", "DELETE", "/gone", "", ""},
+	"u1":    {"zz_h1", "GET", "/users/1", "id=1", "", ""},
+	"u2":    {"zz_h1", "GET", "/users/2", "id=2", "", ""},
+	"u9":    {"zz_h1", "GET", "/users/9", "id=9", "", ""},
+	"echoA": {"zz_h2", "POST", "/echo", "", "aaa", ""},
+	"echoB": {"zz_h2", "POST", "/echo", "", "b", ""},
+	"made1": {"zz_h3", "PUT", "/made/1", "k=1", "", ""},
+	"made0": {"zz_h3", "PUT", "/made/0", "k=0", "", ""},
+	"json":  {"zz_h4", "GET", "/json?n=5", "", "", ""},
+	"gone":  {"zz_h5", "DELETE", "/gone", "", "", ""},
+	// requests that carry a header / query name the interpreter has not seen yet; the handler sends the headers back
+	"corrA": {"zz_h6", "GET", "/corr?zzq5_fresh=1", "", "", "X-Zz5-Corr=a1"},
+	"corrB": {"zz_h6", "GET", "/corr?zzq5_fresh=2", "", "", "X-Zz5-Corr=b2"},
 }
 
-var s5names = []string{"u1", "u2", "u9", "echoA", "echoB", "made1", "made0", "json", "gone"}
+var s5names = []string{"u1", "u2", "u9", "echoA", "echoB", "made1", "made0", "json", "gone", "corrA", "corrB"}
 
 func s5Call(h echo.HandlerFunc, rq s5req) string {
 	e := echo.New()
@@ -290,6 +294,10 @@ func s5Call(h echo.HandlerFunc, rq s5req) string {
 		req = httptest.NewRequest(rq.method, rq.url, body)
 	}
 	req.Header.Set("Accept", "text/x-"+rq.method)
+	if rq.hdr != "" {
+		kv := strings.SplitN(rq.hdr, "=", 2)
+		req.Header.Set(kv[0], kv[1])
+	}
 	rec := httptest.NewRecorder()
 	c := e.NewContext(req, rec)
 	if rq.params != "" {
@@ -298,7 +306,7 @@ func s5Call(h echo.HandlerFunc, rq s5req) string {
 		c.SetParamValues(kv[1])
 	}
 	err := h(c)
-	return fmt.Sprintf("%d ct=%s xa=%s body=%q err=%v", rec.Code, rec.Header().Get("Content-Type"), rec.Header().Get("X-A"), rec.Body.String(), err)
+	return fmt.Sprintf("%d ct=%s xa=%s corr=%s body=%q err=%v", rec.Code, rec.Header().Get("Content-Type"), rec.Header().Get("X-A"), rec.Header().Get("X-Zz5-Corr"), rec.Body.String(), err)
 }
 
 func (w *world) s5Body(hs map[string]echo.HandlerFunc, names []string, results *[]string, idx int) func() {
@@ -329,7 +337,7 @@ func (w *world) s5Handlers() map[string]echo.HandlerFunc {
 		return nil
 	}
 	hs := map[string]echo.HandlerFunc{}
-	for _, n := range []string{"zz_h1", "zz_h2", "zz_h3", "zz_h4", "zz_h5"} {
+	for _, n := range []string{"zz_h1", "zz_h2", "zz_h3", "zz_h4", "zz_h5", "zz_h6"} {
 		v, ok := main.Get(object.GetSymHash(n))
 		if !ok {
 			w.c.HarnessError("S5: %s is not defined", n)
@@ -384,7 +392,7 @@ func genS5(thorough bool, emit func(tcase)) {
 		}
 	}
 	// two requests per thread on the handlers that answer with and without a status of their own
-	for _, p := range [][2][]string{{{"u9", "u1"}, {"u2", "u9"}}, {{"made1", "made0"}, {"made0", "made1"}}, {{"u9", "echoA"}, {"echoB", "u1"}}} {
+	for _, p := range [][2][]string{{{"corrA", "corrA"}, {"corrB"}}, {{"corrA"}, {"corrA"}}, {{"u9", "u1"}, {"u2", "u9"}}, {{"made1", "made0"}, {"made0", "made1"}}, {{"u9", "echoA"}, {"echoB", "u1"}}} {
 		emit(tcase{Scenario: "S5", Threads: [][]string{p[0], p[1]}, Bound: 1})
 	}
 	if thorough {
